@@ -610,4 +610,60 @@ def table : List Row :=
 
 end Sites
 
+/-! ### types.recoverSigners: the length check of a transaction signature lives inside crypto.Ecrecover
+
+  `sigs[i]` arrives from the wire with ANY length (`Sigs [][]byte` is unconstrained RLP).  The only
+  length check on the p2p path is `len(sig) != 65 → ErrInvalidSignatureLen` inside
+  `crypto.Ecrecover`; `sigs[i][:32]`, `sigs[i][32:64]`, `sigs[i][64]` are safe only because they run
+  after that call has succeeded.  The model executes the four statements in the order given by the
+  fact table `order` (re-extracted from chain/types/tx_signing.go on every run). -/
+namespace SigGuard
+
+inductive Stmt where
+  | ecrecover        -- pub, err := crypto.Ecrecover(sigHash[:], sigs[i]); if err != nil { return nil, err }
+  | sliceR           -- sigs[i][:32]
+  | sliceS           -- sigs[i][32:64]
+  | indexV           -- sigs[i][64]
+  deriving DecidableEq, Repr
+
+inductive Res where
+  | ok | err | panic
+  deriving DecidableEq, Repr
+
+/-- one statement on a signature of length `n` (`recoverable`: Ecrecover finds a public key) -/
+def exec (n : Nat) (recoverable : Bool) : Stmt → Res
+  | .ecrecover => if n ≠ 65 then .err else if recoverable then .ok else .err
+  | .sliceR => if n < 32 then .panic else .ok       -- s[:32]   needs 32 ≤ cap = len
+  | .sliceS => if n < 64 then .panic else .ok       -- s[32:64] needs 64 ≤ cap = len
+  | .indexV => if n < 65 then .panic else .ok       -- s[64]    needs 64 < len
+
+/-- run the statements in order; the first non-ok result ends the function -/
+def run (n : Nat) (recoverable : Bool) : List Stmt → Res
+  | [] => .ok
+  | st :: rest => match exec n recoverable st with
+    | .ok => run n recoverable rest
+    | r => r
+
+structure Row where
+  idx : Nat
+  kind : String
+  expr : String
+  stmt : Stmt
+
+def Row.row (r : Row) : String := toString r.idx ++ "|" ++ r.kind ++ "|" ++ r.expr
+
+/-- T2 fact table: the statements over `sigs[i]` inside the loop of recoverSigners, in source order -/
+def order : List Row :=
+  [ ⟨0, "call", "crypto.Ecrecover(sigHash[:],sigs[i])", .ecrecover⟩,
+    ⟨1, "slice", "sigs[i][:32]", .sliceR⟩,
+    ⟨2, "slice", "sigs[i][32:64]", .sliceS⟩,
+    ⟨3, "index", "sigs[i][64]", .indexV⟩ ]
+
+/-- the code as it is -/
+def asCoded : List Stmt := order.map (·.stmt)
+/-- the "cheap fail-fast" reordering: value checks before the recovery -/
+def reordered : List Stmt := [.sliceR, .sliceS, .indexV, .ecrecover]
+
+end SigGuard
+
 end LemoModel.Frame
